@@ -279,9 +279,9 @@ func negotiateFeatures(ctx context.Context, s *Session, first, ws bool, features
 		}
 		s.negotiated[data.feature.Name.Space] = struct{}{}
 
-		// If we negotiated a required feature or a stream restart is required
-		// we're done with this feature set.
-		if rw != nil || data.req {
+		// If we negotiated a required feature, a stream restart is required, or
+		// negotiating the feature failed we're done with this feature set.
+		if rw != nil || data.req || err != nil {
 			break
 		}
 	}
